@@ -103,6 +103,94 @@ fn claim_message(e: &Env, issuer: &Address, identity: &Address, topic: u32, nonc
     m
 }
 
+/// The identity contract belongs to the investor, not to the token: one that claims to hold whatever it is
+/// asked about and serves a genuine claim about ANOTHER topic (or of another issuer) must not get its
+/// holder verified. Only when the served record really is a valid claim of a trusted issuer for the
+/// required topic does verification pass.
+fn lying_identity(cfg: &Cfg, rep: &mut Report) {
+    use crate::contracts::identity::LyingIdentity;
+    use stellar_tokens::rwa::identity_claims::{generate_claim_id, Claim};
+    for k in 0..6u64 {
+        let h = 70_000 + k;
+        if h % cfg.nshards as u64 != cfg.shard as u64 || !cfg.runs(h) {
+            continue;
+        }
+        let mut rng = Rng::for_history(cfg.seed, "C15", cfg.shard, h);
+        rep.begin_history(h);
+        let w = World::new(100, 16);
+        let e = &w.env;
+        e.mock_all_auths();
+        let cti = e.register(CtiC, ());
+        let irs = e.register(IrsC, ());
+        let verifier = e.register(VerifierC, (cti.clone(), irs.clone()));
+        let issuers: Vec<Address> = (0..2).map(|_| e.register(IssuerC, ())).collect();
+        let key = Key::new(&mut rng, SCHEMES[(k % 3) as usize]);
+        let liar = e.register(LyingIdentity, ());
+        let account = w.account();
+        let countries: SVec<CountryData> = SVec::from_array(e, [CountryData { country: CountryRelation::Individual(IndividualCountryRelation::Residence(840)), metadata: None }]);
+        invoke::<()>(e, &irs, "add_identity", args!(e, account.clone(), liar.clone(), IdentityType::Individual, countries)).expect("add_identity");
+        let ts: u64 = 1_700_000_000;
+        w.set_time(ts);
+        // required: topic 1, trusted issuer I0 (which may also sign topic 2); I1 is trusted for nothing
+        // (keys can only be allowed while the issuer is registered for the topic: wire everything up first,
+        // then take away what the token no longer asks for)
+        for t in [1u32, 2] {
+            invoke::<()>(e, &cti, "add_claim_topic", args!(e, t)).unwrap();
+        }
+        for i in 0..2 {
+            invoke::<()>(e, &cti, "add_trusted_issuer", args!(e, issuers[i], SVec::from_array(e, [1u32, 2]))).unwrap();
+        }
+        let pk = Bytes::from_slice(e, &key.public());
+        for i in 0..2 {
+            for t in [1u32, 2] {
+                invoke::<()>(e, &issuers[i], "allow_key", args!(e, pk.clone(), cti.clone(), key.scheme, t)).expect("allow_key");
+            }
+        }
+        invoke::<()>(e, &cti, "remove_trusted_issuer", args!(e, issuers[1])).unwrap();
+        invoke::<()>(e, &cti, "remove_claim_topic", args!(e, 2u32)).unwrap();
+        // the record served: (signed topic, signing issuer); only (1, I0) is what the token asks for
+        let shapes: [(&str, u32, usize, bool); 4] = [("claim-about-another-topic", 2, 0, false), ("claim-of-an-untrusted-issuer", 1, 1, false), ("other-topic-and-untrusted-issuer", 2, 1, false), ("the-required-claim", 1, 0, true)];
+        for (name, topic, is, genuine) in shapes {
+            let mut data: Vec<u8> = (ts - 1).to_be_bytes().to_vec();
+            data.extend_from_slice(&(ts + 1000).to_be_bytes());
+            data.extend_from_slice(&rng.bytes::<4>());
+            let msg = claim_message(e, &issuers[is], &liar, topic, 0, &data);
+            let sig = key.sign(&msg);
+            let rec = Claim { topic, scheme: key.scheme, issuer: issuers[is].clone(), signature: Bytes::from_slice(e, &sig), data: Bytes::from_slice(e, &data), uri: SString::from_str(e, "u") };
+            // the issuer itself confirms the record for what it says (it IS a genuine claim about `topic`)
+            let own: Result<(), Fail> = invoke(e, &issuers[is], "is_claim_valid", args!(e, liar.clone(), topic, key.scheme, rec.signature.clone(), rec.data.clone()));
+            if own.is_err() {
+                // (an issuer may stop confirming once the registry dropped it: then there is nothing to serve)
+                rep.count("lying_identity_shapes_the_issuer_itself_refuses");
+                rep.case(format!("lying-identity/scheme={}/{name}/issuer-refuses-its-own-claim", key.scheme));
+                if genuine {
+                    rep.check("ref", false, "C15/ref/lying-identity/setup", || format!("{name}: the trusted issuer does not confirm its own claim: {own:?}"));
+                }
+                continue;
+            }
+            // ids the liar says it holds: the ones the verifier will look for, for every issuer and topic
+            let mut ids: SVec<BytesN<32>> = SVec::new(e);
+            for i in 0..2 {
+                for t in [1u32, 2] {
+                    ids.push_back(e.as_contract(&liar, || generate_claim_id(e, &issuers[i], t)));
+                }
+            }
+            invoke::<()>(e, &liar, "set", args!(e, ids, rec)).unwrap();
+            let r: Result<(), Fail> = invoke(e, &verifier, "verify_identity", args!(e, account.clone()));
+            rep.evaluations += 2;
+            rep.op(format!("lying identity serves {name} -> verify_identity {}", tag(&r)));
+            rep.case(format!("lying-identity/scheme={}/{name}/{}", key.scheme, tag(&r)));
+            if genuine {
+                rep.check("verify", r.is_ok(), "C15/verify/verify_identity/refused-although-every-topic-is-covered", || format!("{name}: {r:?}"));
+            } else {
+                rep.check("verify", r.is_err(), &format!("C15/verify/verify_identity/passed-on-{name}"), || format!("verify_identity passed for an identity contract that serves a {name} under the id of the required claim"));
+            }
+        }
+        rep.count("lying_identity_histories");
+        rep.end_history();
+    }
+}
+
 /// `e2e`: C04's use of this engine - an RWA token wired to the real identity verifier is probed
 /// (mint, transfer) after every step against the same iff-oracle; C15's own monitors are muted by
 /// the caller in that mode.
@@ -682,7 +770,8 @@ pub fn history(cfg: &Cfg, rep: &mut Report, h: u64, steps: usize, e2e: bool) {
 }
 
 pub fn run(cfg: &Cfg, rep: &mut Report) {
-    rep.rule = "Seeded histories on the real stack (claim-topics-and-issuers, identity registry storage, identity claims, identity verifier, claim issuer assembled from the library helpers): registry edits (topics with several, one and ZERO issuers; removed and re-added topics and issuers; 'currently trusted' is taken from the edit history and compared with the registry's own answer), a fourth, scripted issuer that confirms, fails or RETURNS false, allow/remove key (also the bytes of a real key under another scheme number), claims of one identity sharing their data across topics, nonce bump, revoke/un-revoke, time advance past valid_until, add_claim with genuine or single-defect claims (wrong topic / identity / issuer / nonce in the signed message, data or signature altered, truncated, other scheme, expired, foreign key, data too short to carry its time stamps); the library's encoder / decoder of the claim-data layout against the bytes built here signed with real Ed25519 / P-256 / secp256k1 keys. The account -> identity link is edited too (modify / remove / add again / recover; two accounts may share one identity). After every step verify_identity for 4 accounts and (every 3rd step) is_claim_valid for every held claim are compared with the iff-oracle. Distinct case = (registry shape, verdict class, outcome) / (scheme, defect or invalidation kind, outcome).".into();
+    rep.rule = "Seeded histories on the real stack (claim-topics-and-issuers, identity registry storage, identity claims, identity verifier, claim issuer assembled from the library helpers): registry edits (topics with several, one and ZERO issuers; removed and re-added topics and issuers; 'currently trusted' is taken from the edit history and compared with the registry's own answer), a fourth, scripted issuer that confirms, fails or RETURNS false, allow/remove key (also the bytes of a real key under another scheme number), claims of one identity sharing their data across topics, nonce bump, revoke/un-revoke, time advance past valid_until, add_claim with genuine or single-defect claims (wrong topic / identity / issuer / nonce in the signed message, data or signature altered, truncated, other scheme, expired, foreign key, data too short to carry its time stamps); the library's encoder / decoder of the claim-data layout against the bytes built here signed with real Ed25519 / P-256 / secp256k1 keys. The account -> identity link is edited too (modify / remove / add again / recover; two accounts may share one identity). An identity contract under its holder's control that serves a genuine claim about another topic / of an untrusted issuer under the id of the required one must not verify. After every step verify_identity for 4 accounts and (every 3rd step) is_claim_valid for every held claim are compared with the iff-oracle. Distinct case = (registry shape, verdict class, outcome) / (scheme, defect or invalidation kind, outcome).".into();
+    lying_identity(cfg, rep);
     let nh = cfg.pick(16u64, 100);
     let steps = cfg.pick(120usize, 250);
     for k in 0..nh {
